@@ -2,6 +2,7 @@ package props
 
 import (
 	"fmt"
+	"math/big"
 	"sort"
 
 	"gcv/internal/an"
@@ -56,5 +57,28 @@ func debugBounds(r *core.Run) {
 	sort.Strings(ks)
 	for _, k := range ks {
 		fmt.Printf("%-70s %d %d\n", k, cnt[k][0], cnt[k][1])
+	}
+}
+
+func init() { Registry["X-limbs"] = debugLimbs }
+
+func debugLimbs(r *core.Run) {
+	p := load(r, core.LoadOpts{Patterns: []string{"./lib/secp256k1"}, GOARCH: "386"})
+	for _, name := range []string{"Mul", "Sqr", "Normalize"} {
+		fn := p.Func("lib/secp256k1.(*Field)." + name)
+		res := an.InterpretLimbs(p, fn, func(par string, limb int) (an.IV, bool) {
+			b := int64(8 * 0x4040000)
+			if limb == 9 {
+				b = 8 * 0x440000
+			}
+			return an.IV{Lo: big.NewInt(0), Hi: big.NewInt(b)}, true
+		}, nil)
+		fmt.Println(name, len(res.Issues))
+		for _, is := range res.Issues {
+			fmt.Println("   ", p.Pos(is.Pos), is.What)
+		}
+		for _, k := range res.SortedOut() {
+			fmt.Println("   ", k, res.Out[k])
+		}
 	}
 }
